@@ -1,4 +1,4 @@
-//go:build verif
+//go:build verif && go1.25
 
 package props
 
